@@ -41,11 +41,13 @@ def run_resilient(ctx, reqs, chunk=400, timeout=1800):
 # generator of package definitions (the format-independent DTO, as the model's JSON)
 # ----------------------------------------------------------------------------------------------
 
-NAMES = ["a", "b", "c", "lib", "app", "gen_x", "t-1", "x.y", "test", "build_all", "Z9"]
+# incl. a semantic dictionary: names equal to keywords / field names / YAML specials, case variants, *_test
+NAMES = ["a", "b", "c", "lib", "app", "gen_x", "t-1", "x.y", "test", "build_all", "Z9", "all", "name", "targets", "x_test", "true", "null",
+         "123", "NAME", "Name", "no", "1e3", "command"]
 FILES = ["a.txt", "b.txt", "c.md", "src/x.go", "src/y.go", "src/deep/z.go", ".hidden", "README"]
 GLOBS = ["*.txt", "**/*.go", "src/*.go", "*", "**/*", "nomatch*", "src/**", "[ab].txt", "{a,c}.*", "?.txt"]
 BAD_GLOBS = ["[", "a[", "{a,b", "[]a]"]
-PKGS = ["", "p", "p/q", "lib", "x-y"]
+PKGS = ["", "p", "p/q", "lib", "x-y", "p2", "pq", "lib/x"]
 
 
 def gen_label(rng, names, bad=0.03):
@@ -102,7 +104,7 @@ def gen_target(rng, name, names, mk=False, faults=True):
     t["platforms"] = rng.choice([None, None, [], ["linux/amd64"], ["darwin/arm64", "linux/arm64"]])
     r = rng.random()
     if r < 0.3:
-        t["timeout"] = rng.choice(["5s", "1m30s", "2h", "150ms", "1.5s", "0"])
+        t["timeout"] = rng.choice(["5s", "1m30s", "2h", "150ms", "1.5s", "0", "0s", "1h", "1h0m0s", "+5s", "1us", "2562047h"])
     elif f(0.03):
         t["timeout"] = rng.choice(["5", "abc", "1d", "-", "s"])
     if mk:
@@ -156,12 +158,14 @@ def q(s):
     return json.dumps(s)
 
 
-def _tjson(t):
+def _tjson(t, explicit_empty=False):
+    """explicit_empty: write empty lists / maps out (`"inputs": []`) instead of omitting them — must not matter
+    (except for platforms, where the DTO itself distinguishes absent from empty)"""
     if t is None:
         return None
     o = {"name": t["name"], "command": t["command"]}
     for k, jk in (("deps", "dependencies"), ("inputs", "inputs"), ("excludes", "exclude_inputs"), ("outputs", "outputs"), ("tags", "tags")):
-        if t[k]:
+        if t[k] or explicit_empty:
             o[jk] = t[k]
     if t["bin_output"]:
         o["bin_output"] = t["bin_output"]
@@ -179,7 +183,8 @@ def _tjson(t):
 
 
 def render_json(dto, rng=None):
-    o = {"targets": [_tjson(t) for t in dto["targets"]]}
+    ee = bool(rng) and rng.random() < 0.25
+    o = {"targets": [_tjson(t, ee) for t in dto["targets"]]}
     if dto["aliases"]:
         o["aliases"] = dto["aliases"]
     if dto["default_platforms"] is not None:
@@ -215,13 +220,17 @@ def _yaml_lines(o, ind):
     return out
 
 
-def render_yaml(dto):
-    o = {"targets": [_tjson(t) for t in dto["targets"]]}
+def render_yaml(dto, rng=None):
+    ee = bool(rng) and rng.random() < 0.25
+    o = {"targets": [_tjson(t, ee) for t in dto["targets"]]}
     if dto["aliases"]:
         o["aliases"] = dto["aliases"]
     if dto["default_platforms"] is not None:
         o["default_platforms"] = dto["default_platforms"]
-    return "\n".join(_yaml_lines(o, 0)) + "\n"
+    text = "\n".join(_yaml_lines(o, 0)) + "\n"
+    if rng and rng.random() < 0.15:
+        text = text.replace("\n", "\r\n")
+    return text
 
 
 def render_starlark(dto):
@@ -280,8 +289,11 @@ def render_makefile(dto, rng=None):
                 out.append(rng.choice(["", "#", "   "]))
         out.append(f"{goal}:" + (" dep1 dep2" if rng and rng.random() < 0.3 else ""))
         out.append("\techo building")
-        out.append("")
-    return "\n".join(out) + "\n"
+        out.append(rng.choice(["", "# just a comment", "\t", "other: x\n\ttrue"]) if rng else "")
+    text = "\n".join(out) + "\n"
+    if rng and rng.random() < 0.15:
+        text = text.replace("\n", "\r\n")
+    return text
 
 
 def render_script(t, rng=None):
